@@ -670,7 +670,7 @@ func writeEvidence(verif, prop, tier string, seed int, eng *Engine, fvs []*FuncV
 
 var thoroughExtras map[string]interface{}
 
-var effectProps = map[string]bool{"C08": true, "C20": true, "C05": true, "C04": true, "C03": true, "C10": true, "C09": true}
+var effectProps = map[string]bool{"C08": true, "C20": true, "C05": true, "C06": true, "C07": true, "C04": true, "C03": true, "C10": true, "C09": true}
 
 func libScope(eng *Engine) func(string) bool {
 	return func(p string) bool {
@@ -692,6 +692,11 @@ func runEffects(eng *Engine, prop string) []*EffObl {
 		return g.globalWriteObligations(libScope(eng))
 	case "C05":
 		return append(append(g.recoverObligations(libScope(eng)), g.deadContextObligations()...), g.meterObligations(libScope(eng))...)
+	case "C06", "C07":
+		// a memory or time kill is a ContextTerminationError like a CPU kill: the same
+		// two structural obligations decide that nothing intercepts it and that no Lua
+		// code of the context runs once its status has left `live`
+		return append(g.recoverObligations(libScope(eng)), g.deadContextObligations()...)
 	case "C03":
 		return g.writesOnlyObligations("C03")
 	case "C10":
